@@ -175,7 +175,8 @@ def empty_literal(t: str) -> bool:
     """an item whose literal is the empty string: SingleMarker glues operator and value and a regex splits the operator text
     again (`os_name != ""` is read as `os_name == "!="`)"""
     import re
-    return bool(re.search(r"""(==|!=|<=|>=|~=|<|>|\bin)\s*(""|'')""", t) or re.search(r"""(""|'')\s*(not\s+in|in)\b""", t))
+    # (a literal of white space only is stripped to the empty one)
+    return bool(re.search(r"""(==|!=|<=|>=|~=|<|>|\bin)\s*("\s*"|'\s*')""", t) or re.search(r"""("\s*"|'\s*')\s*(not\s+in|in)\b""", t))
 
 
 def pfv2_list(t: str) -> bool:
